@@ -1,5 +1,5 @@
 (* C04 - Decoding never panics, whatever bytes arrive. *)
-From MQ Require Import Model.Stream Proofs.StreamP Proofs.DecP Proofs.ReadP Model.WireDecIR Proofs.WireDecIRP gen.GenWireDec gen.SyncWireDec Model.BufIR Proofs.BufIRP gen.GenBuf gen.SyncBuf.
+From MQ Require Import Model.Stream Proofs.StreamP Proofs.DecP Proofs.ReadP Model.WireDecIR Proofs.WireDecIRP gen.GenWireDec gen.SyncWireDec Model.BufIR Proofs.BufIRP gen.GenBuf gen.SyncBuf Proofs.WireIRP gen.GenWire gen.SyncWire.
 
 (* UnmarshalBinary of every packet type, on every receiver state and
    every byte string, returns normally (Panic is produced in the model
@@ -75,3 +75,13 @@ Theorem C04_guarded_reader_is_the_source :
     run_get dc wd get_prog s0 = get_with dc wd s0.
 Proof. exact (conj sync_get_prog (@get_is_prog)). Qed.
 Print Assumptions C04_guarded_reader_is_the_source.
+
+(* The amount the reader advances by after a decode - v.width(), recomputed
+   from the value v now holds (Wire.width) - is the source's width method of
+   each wire type: its regenerated statement list returns Wire.width w v for
+   every value and writes nothing. *)
+Theorem C04_widths_are_the_source :
+  g_wire_progs = wire_progs /\
+  forall w v id buf i, run_fill (prog_width w) (env_of w v id) buf i = Some (buf, Wire.width w v).
+Proof. exact (conj sync_wire_progs wire_width_is_width). Qed.
+Print Assumptions C04_widths_are_the_source.
